@@ -289,6 +289,15 @@ def subject_limit(case):
     old = (limits.MAX_XML_DEPTH, limits.MAX_XML_ELEMENTS)
     limits.MAX_XML_DEPTH, limits.MAX_XML_ELEMENTS = case['D'], case['E']
     try:
+        if case.get('refused') is not None:
+            # an assignment that the module refuses leaves the configured limits in force
+            for name in ('MAX_XML_DEPTH', 'MAX_XML_ELEMENTS'):
+                try:
+                    setattr(limits, name, case['refused'])
+                except (ValueError, TypeError):
+                    pass
+                else:
+                    return {'result': 'the assignment limits.%s = %r was accepted' % (name, case['refused'])}
         try:
             r = xmlschema.XMLResource(case['doc'], lazy=case['lazy'])
             n = sum(1 for _ in r.iter())
@@ -317,6 +326,9 @@ def check_limits(ctx):
                             continue
                         for lazy in (False, True):
                             cases.append({'D': D, 'E': E, 'depth': depth, 'elems': elems, 'noise': noise, 'lazy': lazy, 'doc': doc})
+                            if not noise:
+                                cases.append({'D': D, 'E': E, 'depth': depth, 'elems': elems, 'noise': noise, 'lazy': lazy, 'doc': doc,
+                                              'refused': (0, -1, 'x', 2.5)[(depth + elems + D) % 4]})
     # records whose last child declares a namespace: the depth stays 3 however many records there are
     for D in (3, 4, 5):
         for k in (1, 2, 5, 20):
@@ -328,7 +340,7 @@ def check_limits(ctx):
              for c in cases]
     model = common.coq_eval('C11', IMPORTS, '', terms, shard=200)
     for c, o, m in zip(cases, impl, model):
-        ctx.count(('limit', c['D'], c['E'], c['depth'], c['elems'], c['noise'], c['lazy']), nontrivial=True)
+        ctx.count(('limit', c['D'], c['E'], c['depth'], c['elems'], c['noise'], c['lazy'], repr(c.get('refused'))), nontrivial=True)
         ctx.dist('limits', m)
         rep = {'kind': 'limit', 'case': dict(c, doc=c['doc'][:300]), 'impl': o, 'model': m}
         if 'harness_exception' in o:
